@@ -118,6 +118,22 @@ def main():
     bymap = {u.name: u for u in allu}
     for u in sel:
         r = res[u.name]
+        if r['status'] == 'inconclusive' and u.loops:
+            # the loop-contract proof could not be run to a verdict (weaving mismatch, timeout, instrumentation failure):
+            # the bounded arbiter decides what can be decided (DESIGN 4.2)
+            arb = E.auto_arbiter(u)
+            ar = E.run_unit(arb, a.tier, seed)
+            res[arb.name] = ar
+            afl = [f for f in ar.get('failed', []) if f['cls'] in E.FUNCTION_LEVEL] if ar['status'] == 'failed' else []
+            if afl:
+                rp, reproduced = R.make_replay(prop, arb, afl, ar)
+                violations.append((arb.name, afl, rp, reproduced))
+            elif ar['status'] == 'discharged':
+                notes.append('PROOF-BROKEN unit=%s (%s; function contract held up to bound: %s)' % (u.name, r.get('reason', '')[:120], arb.bound_note))
+                r['status'] = 'proof-broken'
+            else:
+                inconclusive.append((u.name, r.get('reason', '') + ' / arbiter: ' + ar.get('reason', ar['status'])))
+            continue
         if r['status'] == 'inconclusive':
             inconclusive.append((u.name, r.get('reason', '')))
             continue
@@ -158,6 +174,9 @@ def main():
                 r['status'] = 'proof-broken'
             else:
                 inconclusive.append((u.name, 'proof-level failure and arbiter %s is %s' % (arb.name, ar['status'])))
+    for n, c in cross.items():
+        if c['status'] == 'failed':
+            inconclusive.append((n, 'back ends disagree: MiniSat discharged every obligation, kissat reports %s' % ','.join(f['obligation'] for f in c.get('failed', [])[:3])))
     for l in sorted(set(kf_lines)):
         print(l)
     for n in notes:
